@@ -412,5 +412,47 @@ def _and_parts(t: str) -> list:
     return [t]
 
 
-RULES = [rule_a, rule_b, rule_c, rule_d, rule_e, rule_f, rule_g, rule_h, rule_i, rule_j]
+def rule_k(ctx: Ctx) -> None:
+    """The attribute set an element is checked against is that of its *governing* type.  `self.attributes` is the set of the declared type
+    (_set_type); when xsi:type names a simple type the governing type has no attributes at all, whatever the declaration admits - an element
+    declared xs:anyType must not lend its lax ##any attribute wildcard to `xsi:type="xs:int"`."""
+    rule = 'C03.k'
+    f = ctx.idx.method('xmlschema.validators.elements.XsdElement', 'get_attributes')
+    ctx.analysed(f.qualname)
+    g = cfg_of(ctx, f)
+    p = [x for x in f.params if x != 'self']
+    ty = p[0] if p else 'xsd_type'
+    rets = [r for r in g.nodes if r.kind == 'return' and r.ast.value is not None]
+    ctx.floor(rule, 'returns of XsdElement.get_attributes', len(rets), 2)
+    n_empty = 0
+    for r in rets:
+        v = text(r.ast.value)
+        gs = guards(ctx, f, r)
+        complex_only = (f'not isinstance({ty}, XsdSimpleType)', 'T') in gs or (f'isinstance({ty}, XsdSimpleType)', 'F') in gs
+        same = (f'{ty} is self.type', 'T') in gs or (f'self.type is {ty}', 'T') in gs or (f'{ty} is not self.type', 'F') in gs
+        if v == f'{ty}.attributes':
+            ok, why = complex_only, 'the attributes of the governing type are read on a path where it may be a simple type (no such attribute)'
+        elif v == 'self.attributes':
+            ok = same
+            why = ('the attribute set of the *declared* type is used for a governing simple type that is not the declared type: an element declared xs:anyType (or any complex type '
+                   'with attributes) keeps its attributes and its ##any wildcard under xsi:type="xs:int" - `foo="1"` is accepted and decoded')
+        elif 'empty' in v.lower():
+            ok, why = True, ''
+            n_empty += 1
+        else:
+            ok, why = False, 'unrecognised source of the attribute set'
+        ctx.ob(rule, f'XsdElement.get_attributes: `return {v[:50]}` is the attribute set of the governing type', f.loc(r.ast), ok, '' if ok else why,
+               key=f'get_attributes|{v[:40]}')
+    ctx.ob(rule, 'XsdElement.get_attributes: a governing simple type other than the declared one gets the empty attribute set', f.loc(), n_empty >= 1,
+           '' if n_empty else 'no exit returns an empty attribute group', key='get_attributes|empty-set')
+    st = ctx.idx.method('xmlschema.validators.elements.XsdElement', '_set_type')
+    gs_ = cfg_of(ctx, st)
+    asg = [x for x in gs_.nodes if x.kind == 'stmt' and isinstance(x.ast, ast.Assign) and text(x.ast.targets[0]) == 'self.attributes']
+    ok = bool(asg) and all(('create_empty_attribute_group' in text(x.ast.value)) == (('isinstance(value, XsdSimpleType)', 'T') in guards(ctx, st, x)) for x in asg)
+    ctx.ob(rule, 'XsdElement._set_type: self.attributes is the empty set exactly for a declared simple type', st.loc(), ok, '', key='_set_type|attributes', nontrivial=False)
+    ctx.explain('C03.k: path conditions of the returns of XsdElement.get_attributes - `xsd_type.attributes` only for a complex governing type, `self.attributes` only under '
+                '`xsd_type is self.type`, otherwise a fresh empty group.')
+
+
+RULES = [rule_a, rule_b, rule_c, rule_d, rule_e, rule_f, rule_g, rule_h, rule_i, rule_j, rule_k]
 THOROUGH = [thorough]
